@@ -359,7 +359,7 @@ struct E1 : Engine {
 			J c = J::obj(); int proto = (int)r.below(3); c["proto"] = proto; bool async_mount = r.below(2); c["async"] = async_mount;
 			c["cap_to_server"] = (int)(r.below(3) == 0 ? 1 + r.below(64) : 256 + r.below(65536)); c["cap_to_client"] = (int)(r.below(3) == 0 ? 1 + r.below(64) : 256 + r.below(262144));
 			J rp = J::arr(); int nrp = r.below(4); for(int i=0;i<nrp;i++) rp.push((int)(1 + r.below(r.below(2) ? 16 : 5000))); c["read_pace"] = rp; c["start_delay_us"] = (int)r.below(2000);
-			bool bad_conn = prop == "C02" && (ci == 0 || r.below(2));
+			bool bad_conn = (prop == "C02" && (ci == 0 || r.below(2))) || (prop == "C12" && r.below(4) == 0);   // C12: the last request of a quarter of the connections carries a malformed / mis-sized upload
 			bool http11 = r.below(2); c["http11"] = http11; int nreq = proto == 1 ? 1 : 1 + r.below(bad_conn ? 2 : 4); bool ka = nreq > 1 || r.below(3) == 0; c["keepalive"] = ka;
 			{ int narrow = std::min((int)cfg.geti("input_buffer_size"),(int)c.geti("cap_to_server")); gen_budget() = narrow <= 8 ? 2500 : narrow <= 64 ? 16000 : 1u<<30; }
 			J exs = J::arr();
@@ -382,7 +382,7 @@ struct E1 : Engine {
 				J fl = J::obj(); J pc = J::arr(); int npc = r.below(5); for(int k=0;k<npc;k++) pc.push((int)(1 + r.below(r.below(2) ? 8 : 400))); fl["params_chunks"] = pc; J sc2 = J::arr(); int nsc = r.below(5); for(int k=0;k<nsc;k++) sc2.push((int)(1 + r.below(r.below(2) ? 16 : 70000))); fl["stdin_chunks"] = sc2;
 				J pd = J::arr(); int npd = r.below(6); for(int k=0;k<npd;k++) pd.push((int)r.below(r.below(2) ? 8 : 256)); fl["paddings"] = pd; fl["request_id"] = 1 + (int)r.below(r.below(2) ? 3 : 65535); e["fcgi"] = fl;
 				e["seg"] = gen_segs(r,600);
-				if(bad_conn && i == nreq-1){ e["mut"] = gen_mutation(r,proto); if(e.gets("kind") == "writer"){ e["kind"] = "echo"; e["req"] = gen_req(r,prop,thorough,async_mount,i); } }
+				if(bad_conn && i == nreq-1){ e["mut"] = gen_mutation(r,proto); if(prop == "C12"){ static const char *up[] = {"mp_cut","mp_cut","mp_cut","mp_no_final_boundary","mp_bad_part_header","mp_no_name","cl_bigger","cl_over_limit","truncate"}; e["mut"]["op"] = up[r.below(9)]; } if(e.gets("kind") == "writer"){ e["kind"] = "echo"; e["req"] = gen_req(r,prop,thorough,async_mount,i); } }
 				exs.push(e); }
 			c["ex"] = exs; conns.push(c); }
 		p["conns"] = conns;
@@ -393,12 +393,12 @@ struct E1 : Engine {
 	// ---- malformed requests (C02): a valid encoding is mutated; "pos" values are taken modulo the length
 	static J gen_mutation(simk::Rng &r,int proto){
 		J m = J::obj(); unsigned x = r.below(100);
-		static const char *generic[] = {"truncate","truncate","flip","insert","delete","garbage","dup_tail","mp_no_final_boundary","mp_bad_part_header","mp_no_name"};
+		static const char *generic[] = {"truncate","truncate","flip","insert","delete","garbage","dup_tail","mp_no_final_boundary","mp_bad_part_header","mp_no_name","mp_cut"};
 		static const char *http_m[] = {"cl_negative","cl_huge","cl_nonnumeric","cl_duplicate","cl_bigger","cl_smaller","header_16k","bare_lf","nul_in_header","no_version","bad_uri","no_colon","header_spaces","cl_over_limit"};
 		static const char *scgi_m[] = {"len_bigger","len_smaller","no_comma","no_final_nul","len_nondigit","len_huge","len_negative","cl_negative","cl_bigger","cl_smaller","odd_fields","cl_over_limit"};
 		static const char *fcgi_m[] = {"bad_version","unknown_type","bad_role","params_wrong_id","record_len_lie","pair_len_overflow","stdin_longer","stdin_shorter","get_values","get_values_then_request","abort_request","params_never_closed","stray_record_in_params","cl_negative","begin_short","stdin_before_params","cl_over_limit"};
 		std::string op;
-		if(x < 45) op = generic[r.below(10)];
+		if(x < 45) op = generic[r.below(11)];
 		else if(proto == 0) op = http_m[r.below(14)]; else if(proto == 1) op = scgi_m[r.below(12)]; else op = fcgi_m[r.below(17)];
 		m["op"] = op; m["pos"] = (long long)r.below(1000000); m["n"] = (int)(1 + r.below(8)); m["byte"] = (int)r.below(256); m["len"] = (int)r.below(3000);
 		static const char *afters[] = {"close","halfclose","halfclose","wait"}; m["after"] = afters[r.below(4)];
@@ -419,11 +419,14 @@ struct E1 : Engine {
 		else if(op == "delete"){ w.erase(pos,std::min<size_t>(n,w.size()-pos)); }
 		else if(op == "garbage"){ w = gen_bytes((uint64_t)m.geti("pos"),len,0); }
 		else if(op == "dup_tail"){ w += w.substr(pos); }
-		else if(op == "mp_no_final_boundary" || op == "mp_bad_part_header" || op == "mp_no_name"){
+		else if(op == "mp_no_final_boundary" || op == "mp_bad_part_header" || op == "mp_no_name" || op == "mp_cut"){
 			Req q2 = q; if(q2.script == "/f") q2.script = "/a";   // behind a raw content filter nothing parses the body: it would be served
 			q2.method = "POST"; q2.has_body = true; q2.boundary = "XbndX"; q2.content_type = "multipart/form-data; boundary=XbndX"; q2.parts.clear(); Req::Part pt; pt.name = "f"; pt.has_filename = true; pt.filename = "a.bin"; pt.ctype = "text/plain"; pt.content = gen_bytes(5,len % 600,1); q2.parts.push_back(pt); pt.name = "g"; pt.ctype = ""; pt.has_filename = false; pt.content = "v"; q2.parts.push_back(pt);
 			std::string b = multipart_body(q2);
 			if(op == "mp_no_final_boundary") b = b.substr(0,b.size() - std::string("--XbndX--\r\n").size());
+			else if(op == "mp_cut"){   // a body that ends (consistently with its declared length) before the closing delimiter: two times in three at a structural point - right after a delimiter or after the blank line of a part header
+				size_t lim = b.size() - std::string("--XbndX--\r\n").size(); std::vector<size_t> st; for(size_t p = b.find("--XbndX");p != std::string::npos;p = b.find("--XbndX",p+1)) if(p + 7 <= lim) st.push_back(p + 7); for(size_t p = b.find("\r\n\r\n");p != std::string::npos;p = b.find("\r\n\r\n",p+1)) if(p + 4 <= lim) st.push_back(p + 4);
+				uint64_t pp = (uint64_t)m.geti("pos"); size_t cut = (pp % 3) && !st.empty() ? st[(pp / 3) % st.size()] : 1 + (size_t)((pp / 3) % lim); b.resize(cut); }
 			else if(op == "mp_bad_part_header"){ size_t h = b.find("Content-Disposition:"); b.replace(h,20,"Content-Disposition "); }
 			else { size_t h = b.find("form-data;"); b.replace(h,9,"attachment"); }
 			q2.body = b; q2.parts.clear(); q2.boundary.clear();
